@@ -364,6 +364,11 @@ func (c c06) structFamily(w *world.World, res *core.Result, sides map[int][][]by
 				r.EncryptedTokenRequest = append([]byte(nil), r.EncryptedTokenRequest[:len(r.EncryptedTokenRequest)-1]...)
 			}},
 			{"struct/signature-bit", func(r *type3.RateLimitedTokenRequest) { r.Signature = flip(r.Signature, 300) }},
+			{"struct/signature-truncated", func(r *type3.RateLimitedTokenRequest) { r.Signature = append([]byte(nil), r.Signature[:95]...) }},
+			{"struct/none", func(r *type3.RateLimitedTokenRequest) {}}, // the genuine request right after a refused one
+			{"struct/signature-extended", func(r *type3.RateLimitedTokenRequest) { r.Signature = append(append([]byte(nil), r.Signature...), 0) }},
+			{"struct/signature-empty", func(r *type3.RateLimitedTokenRequest) { r.Signature = nil }},
+			{"struct/none", func(r *type3.RateLimitedTokenRequest) {}},
 		}
 		if prevCT != nil {
 			pc := prevCT
